@@ -346,7 +346,7 @@ def _is_iterable_of_pairs(val: t.Any) -> tuple[bool, t.Any]:
         return is_pairs, val
 
     it = peekable(val)
-    peek = it.peek()
+    peek = it.peek(())
     is_pairs = inspection.iscollectiontype(peek.__class__) and len(peek) == 2
     return is_pairs, it
 
